@@ -22,6 +22,8 @@ import (
 	"flag"
 	"fmt"
 	"hash/fnv"
+	"io"
+	"log"
 	"os"
 	"os/exec"
 	"path/filepath"
@@ -31,6 +33,7 @@ import (
 	"strconv"
 	"strings"
 	"sync"
+	"sync/atomic"
 	"testing"
 	"time"
 
@@ -473,8 +476,9 @@ type replayFile struct {
 }
 
 var (
-	kfOnce sync.Once
-	kfAll  []Finding
+	kfOnce    sync.Once
+	kfAll     []Finding
+	noExclude atomic.Bool
 )
 
 func loadKF() []Finding {
@@ -502,6 +506,9 @@ func loadKF() []Finding {
 // away from the finding by construction; when the entry is fixed or absent the
 // generator covers the area again).
 func Open(id string) bool {
+	if noExclude.Load() {
+		return false // replaying an open finding: it must be reproduced without its exclusion
+	}
 	for _, f := range loadKF() {
 		if f.ID == id && f.Status == "open" {
 			return true
@@ -582,7 +589,9 @@ func (s *Suite) Main(t *testing.T) {
 			t.Errorf("known finding %s: unknown spec %q", f.ID, rf.Spec)
 			continue
 		}
+		noExclude.Store(f.Status == "open")
 		err, _ = r.replay(rf.Case)
+		noExclude.Store(false)
 		get(rf.Spec).Labels["replayed-findings"]++
 		switch {
 		case f.Status == "open" && err != nil:
@@ -1013,6 +1022,9 @@ func TempDir(prefix string) (string, func()) {
 
 // RunMain is a TestMain helper that cleans scratch space.
 func RunMain(m *testing.M) {
+	if os.Getenv("VERIF_ENGINE_LOG") == "" {
+		log.SetOutput(io.Discard) // the engine logs every compaction through the std logger
+	}
 	code := m.Run()
 	CleanupScratch()
 	os.Exit(code)
